@@ -19,6 +19,8 @@ pub enum RuleCase {
     Equal { expr: String, kind: String },
     Escaped { expr: String, kind: String },
     Glob { pattern: String, cram: bool },
+    /// default registry only: patterns over the backslash alphabet
+    GlobBackslash { pattern: String },
     Regex { ast: Ast },
     /// documented examples and misuse forms: expression, [(line, expected)]
     Fixed { text: String, lines: Vec<(String, bool)> },
@@ -43,6 +45,9 @@ const ESC_ALPHA: [&str; 11] = ["a", "\\", "t", "x", "0", "1", "4", "e", "é", "F
 const GLOB_ALPHA: [&str; 6] = ["a", "b", "?", "*", "é", "."];
 const GLOB_LINE_ALPHA: [&str; 4] = ["a", "b", "é", "."];
 const RE_LINE_ALPHA: [&str; 4] = ["a", "b", "c", "é"];
+// backslashes are literal in an (unmarked) glob: patterns and lines with backslash + escape-letter look-alikes and a real TAB
+const GLOB_BS_ALPHA: [&str; 6] = ["a", "\\", "t", "x", "*", "?"];
+const GLOB_BS_LINE_ALPHA: [&str; 5] = ["a", "\\", "t", "\t", "x"];
 
 fn fixed_cases() -> Vec<RuleCase> {
     let f = |t: &str, l: &[(&str, bool)]| RuleCase::Fixed { text: t.into(), lines: l.iter().map(|(a, b)| (a.to_string(), *b)).collect() };
@@ -93,6 +98,11 @@ impl Engine for VcRules {
             v.push(RuleCase::Glob { pattern: p.clone(), cram: false });
             v.push(RuleCase::Glob { pattern: p, cram: true });
         }
+        for p in strings_upto(&GLOB_BS_ALPHA, if tier == Tier::Quick { 4 } else { 5 }) {
+            if p.contains('\\') {
+                v.push(RuleCase::GlobBackslash { pattern: p });
+            }
+        }
         let mut memo = vec![vec![]];
         for n in 1..=re_n {
             for a in asts_of_size(n, &mut memo) {
@@ -110,7 +120,7 @@ impl Engine for VcRules {
             Tier::Thorough => (4, 6, 6, 7),
         };
         format!(
-            "equal/eq/implicit/no-eol: all expressions <= {eq_n} over {EQ_ALPHA:?} x all lines (same strings x 4 endings + invalid UTF-8); escaped: all expressions <= {esc_n} over {ESC_ALPHA:?} x (decoded +-LF, all one-byte mutations); glob (default and cram-compat registry): all patterns <= {glob_n} over {GLOB_ALPHA:?} x all lines <= 4 over {GLOB_LINE_ALPHA:?} +-LF; regex: all ASTs of size <= {re_n} over atoms a,b,.,[ab] and operators concat,|,*,?,+,group rendered with minimal parentheses x all lines <= 3 over {RE_LINE_ALPHA:?} +-LF; plus {} documented examples",
+            "equal/eq/implicit/no-eol: all expressions <= {eq_n} over {EQ_ALPHA:?} x all lines (same strings x 4 endings + invalid UTF-8); escaped: all expressions <= {esc_n} over {ESC_ALPHA:?} x (decoded +-LF, all one-byte mutations); glob (default and cram-compat registry): all patterns <= {glob_n} over {GLOB_ALPHA:?} x all lines <= 4 over {GLOB_LINE_ALPHA:?} +-LF; glob with literal backslashes (default registry): all patterns <= 4/5 over {GLOB_BS_ALPHA:?} containing a backslash x all lines <= 4 over {GLOB_BS_LINE_ALPHA:?}; regex: all ASTs of size <= {re_n} over atoms a,b,.,[ab] and operators concat,|,*,?,+,group rendered with minimal parentheses x all lines <= 3 over {RE_LINE_ALPHA:?} +-LF; plus {} documented examples",
             fixed_cases().len()
         )
     }
@@ -286,6 +296,42 @@ impl Engine for VcRules {
                     }
                 }
             }
+            RuleCase::GlobBackslash { pattern } => {
+                kindname = "glob-backslash";
+                let text = format!("{pattern} (glob)");
+                let e = match parse(&text, false) {
+                    Ok(Ok(e)) => e,
+                    Ok(Err(err)) => {
+                        fail("glob-parses", "Ok".into(), format!("Err({err}) for `{text}`"), &mut res);
+                        return res;
+                    }
+                    Err(p) => {
+                        fail("no-crash", "Ok".into(), format!("panic {p} for `{text}`"), &mut res);
+                        return res;
+                    }
+                };
+                let pat: Vec<char> = pattern.chars().collect();
+                for s in strings_upto(&GLOB_BS_LINE_ALPHA, 4) {
+                    let t: Vec<char> = s.chars().collect();
+                    let want = glob_match(&pat, &t);
+                    let l = format!("{s}\n").into_bytes();
+                    let got = match guard(|| e.matches(&l)) {
+                        Ok(g) => g,
+                        Err(p) => {
+                            fail("no-crash", "bool".into(), format!("panic {p}"), &mut res);
+                            return res;
+                        }
+                    };
+                    if got {
+                        matched += 1
+                    } else {
+                        rejected += 1
+                    }
+                    if got != want {
+                        fail("glob-exact", format!("`{text}` matches {s:?} = {want} (backslashes are literal in a glob)"), format!("{got}"), &mut res);
+                    }
+                }
+            }
             RuleCase::Regex { ast } => {
                 kindname = "regex";
                 let text = format!("{} (regex)", ast.render());
@@ -360,6 +406,7 @@ impl Engine for VcRules {
             RuleCase::Equal { expr, .. } => expr.chars().count(),
             RuleCase::Escaped { expr, .. } => expr.chars().count(),
             RuleCase::Glob { pattern, .. } => pattern.chars().count(),
+            RuleCase::GlobBackslash { pattern } => pattern.chars().count(),
             RuleCase::Regex { ast } => ast.size(),
             RuleCase::Fixed { .. } => 0,
         }
